@@ -471,6 +471,24 @@ func (OracleC15) compareStore(x *Exec, s *Snap, when string) {
 	}
 	sortStrings(haveQ)
 	sortStrings(wantQ)
+	if x.Has("ok:" + KReimport) {
+		// InitGenesis queues every imported redelegation twice (addRedelegation queues, and the
+		// import queues again): a duplicate time-queue entry is unobservable (the second deletion at
+		// maturity finds nothing). After an import the queue is compared as a set.
+		// ... and redelegations sharing (delegator, source, destination, denom, completion) come
+		// back as one record and one queue entry with the summed balance; the queue only drives the
+		// clean-up by key, the amounts are judged on the records above. After an import the queue is
+		// compared as a set of keys.
+		strip := func(a []string) []string {
+			var out []string
+			for _, v := range a {
+				out = append(out, v[:strings.LastIndex(v, "|")])
+			}
+			sortStrings(out)
+			return uniqStrings(out)
+		}
+		haveQ, wantQ = strip(haveQ), strip(wantQ)
+	}
 	if !eqStrings(haveQ, wantQ) {
 		x.Fail("C15", "queue", "%s: redelegation time queue %v differs from the pending set %v", when, haveQ, wantQ)
 	}
@@ -546,4 +564,14 @@ func refusalPredicted(s *Snap, d DelSnap, amt math.Int, msg string) bool {
 		return true // degenerate states are classified by their own findings
 	}
 	return false
+}
+
+func uniqStrings(a []string) []string {
+	var out []string
+	for i, v := range a {
+		if i == 0 || v != a[i-1] {
+			out = append(out, v)
+		}
+	}
+	return out
 }
